@@ -253,7 +253,7 @@ func scenarios() []*sched.Scenario {
 	}})
 	// (F4) more workers than 2 x NumCPU, all of them busy when Shutdown is called, each task touching the pool again
 	// afterwards: Shutdown must be able to signal every worker without waiting for any of them
-	out = append(out, &sched.Scenario{Name: "shutdown-with-many-busy-workers", QuickMaxBound: 1, MaxBound: 1, Run: func() {
+	out = append(out, &sched.Scenario{Name: "shutdown-with-many-busy-workers", QuickMaxBound: 1, MaxBound: 1, NoHB: true, Run: func() {
 		n := 2*runtime.NumCPU() + 1
 		p := workerpool.New("p", workerpool.WithWorkerCount(n))
 		p.Start()
@@ -311,7 +311,8 @@ func main() {
 	cli.Main(&cli.Property{
 		ID: "C16", Level: "model_checking", Scenarios: scenarios(),
 		QuickBound: 3, ThoroughBound: 4, Cache: true, Delay: true, QuickSecs: 45, ThoroughSecs: 900,
-		Rule: "every interleaving with at most b preemptions of submitters, Shutdown, Start, waiters, dispatcher and workers of the real WorkerPool; distinct = distinct (outcome, observation log)",
+		RaceHB: &cli.RaceHB{QuickBound: 1, ThoroughBound: 2},
+		Rule:   "every interleaving with at most b preemptions of submitters, Shutdown, Start, waiters, dispatcher and workers of the real WorkerPool; distinct = distinct (outcome, observation log)",
 		Assumptions: []string{
 			"vsync/vatomic/channel shims model the Go primitives faithfully (selftest)",
 			"runtime/debug stays disabled (deadlock-detection goroutines are not part of the property)",
